@@ -233,3 +233,123 @@ func ruleErrorsChecked(r *Run, id string, pkgRel string, floor int) {
 	}
 	r.Stat("calls_returning_error", n)
 }
+
+// ruleNoSwallowedErrors: (1) the error result of a call to a function of the module is looked at (tested, returned or
+// handed on) — see ruleErrorsChecked; (2) wherever an error value obtained from a call is tested against nil, the
+// failure edge does something before it rejoins the success path (returns, calls, stores, sends): an empty
+// `if err != nil {}` silently continues with the zero value of whatever the call was meant to produce.
+func ruleNoSwallowedErrors(r *Run, id string, floor int, dropped bool, pkgs ...string) {
+	r.Begin(id, "errors are neither dropped nor swallowed in "+strings.Join(pkgs, ", ")+": the error result of every call to a module function is tested, returned or handed on; and where the error of any call is tested against nil, the non-nil edge performs some action (return, call, store, send) before rejoining the success path", floor)
+	p := r.P
+	inPkgs := func(fn *ssa.Function) bool {
+		for _, pk := range pkgs {
+			if fnPkgPath(fn) == modPath+pk || (strings.HasSuffix(pk, "/") && strings.HasPrefix(fnPkgPath(fn), modPath+pk)) {
+				return true
+			}
+		}
+		return false
+	}
+	nCalls, nTests := 0, 0
+	for _, fn := range p.Funcs {
+		if !inPkgs(fn) || fn.Blocks == nil {
+			continue
+		}
+		name := fnName(fn)
+		k, j := 0, 0
+		allInstrs(fn, func(ins ssa.Instruction) {
+			c, ok := ins.(*ssa.Call)
+			if !ok {
+				return
+			}
+			errs := errResultsOf(c)
+			if len(errs) == 0 {
+				return
+			}
+			cf := c.Call.StaticCallee()
+			if dropped && cf != nil && p.Analysed(cf) && returnsError(cf) && !strings.HasPrefix(cf.Name(), "Close") && !strings.HasPrefix(cf.Name(), "close") {
+				// (teardown calls are exempt: the error of a Close on a failure path is conventionally not acted upon)
+				nCalls++
+				k++
+				used := false
+				for _, ev := range errs {
+					if ev.Referrers() == nil {
+						continue
+					}
+					for _, ref := range *ev.Referrers() {
+						switch ref.(type) {
+						case *ssa.BinOp, *ssa.Return, *ssa.Call, *ssa.MakeInterface, *ssa.Phi, *ssa.Send, *ssa.MakeClosure, *ssa.Defer, *ssa.Go, *ssa.ChangeInterface, *ssa.TypeAssert:
+							used = true
+						case *ssa.Store:
+							for _, ld := range loadsOfStored(ev) {
+								if ld.Referrers() != nil && len(*ld.Referrers()) > 0 {
+									used = true
+								}
+							}
+							if st := ref.(*ssa.Store); st.Val == ev {
+								if _, isAlloc := st.Addr.(*ssa.Alloc); !isAlloc {
+									used = true // stored into a field or a result
+								}
+							}
+						}
+					}
+				}
+				r.Check(fmt.Sprintf("%s call#%d %s looked at", name, k, cf.Name()), used, posOf(p, c), name, "the error returned by "+cf.Name()+" is never looked at (dropped, or overwritten before any test)")
+			}
+			// (2) empty failure branches
+			for _, ev := range errs {
+				for _, ifs := range nilTestsOf(fn, ev) {
+					bo := ifs.Cond.(*ssa.BinOp)
+					ne := nilEdge(ifs, bo.X)
+					if ne == nil {
+						ne = nilEdge(ifs, bo.Y)
+					}
+					if ne == nil {
+						continue
+					}
+					var fe *ssa.BasicBlock
+					for _, s := range ifs.Block().Succs {
+						if s != ne {
+							fe = s
+						}
+					}
+					nTests++
+					j++
+					empty := fe == nil // both edges lead to the same block
+					if fe != nil {
+						// follow the failure edge while blocks hold nothing but an unconditional jump
+						b := fe
+						for hops := 0; hops < 4; hops++ {
+							if len(b.Instrs) == 1 {
+								if _, isJ := b.Instrs[0].(*ssa.Jump); isJ {
+									b = b.Succs[0]
+									continue
+								}
+							}
+							break
+						}
+						if b == ne && ne != fe {
+							empty = true
+						}
+						// the failure edge reaches the block the nil edge jumps to without doing anything
+						if !empty && len(ne.Instrs) == 1 {
+							if _, isJ := ne.Instrs[0].(*ssa.Jump); isJ && ne.Succs[0] == b && b != fe {
+								empty = true
+							}
+						}
+					}
+					r.Check(fmt.Sprintf("%s errtest#%d of %s", name, j, calleeShort(c)), !empty, posOf(p, ifs), name, "the branch taken when "+calleeShort(c)+" failed is empty: execution continues as if the call had succeeded")
+				}
+			}
+		})
+	}
+	r.Stat("module_calls_returning_error", nCalls)
+	r.Stat("error_tests", nTests)
+}
+
+func calleeShort(c *ssa.Call) string {
+	n := callName(c)
+	if i := strings.LastIndexByte(n, '/'); i >= 0 {
+		n = n[i+1:]
+	}
+	return n
+}
